@@ -345,7 +345,7 @@ def tie_queries(rng, case, part, count=3):
     byk = {k: (b, a) for (k, b, a) in case["base"]}
     fin = [l for l in (part[:-1] if case["weakly"] else part)]
     if len(fin) < 2:
-        return []
+        return world_queries(rng, case, part, 2)
     out = []
 
     def falf(k):
@@ -396,7 +396,7 @@ def world_queries(rng, case, part, count=3):
     byk = {k: (b, a) for (k, b, a) in case["base"]}
     fin = part[:-1] if case["weakly"] else part
     inf = part[-1] if case["weakly"] else []
-    if len(fin) < 2:
+    if len(fin) < 1:
         return []
     from common import ev
     prof = {}
@@ -415,6 +415,15 @@ def world_queries(rng, case, part, count=3):
     for _ in range(count * 4):
         if len(out) >= count:
             break
+        if len(fin) < 2 or rng.random() < 0.25:
+            # exceptional antecedent: only worlds that falsify something (nested and incomparable sets within one layer)
+            g = [w for w, fs in prof.items() if fs]
+            if len(g) < 2:
+                continue
+            sel = rng.sample(g, rng.randrange(2, min(6, len(g)) + 1))
+            nb = rng.randrange(1, len(sel))
+            out.append((disj(sel[:nb]), disj(sel)))
+            continue
         j = rng.randrange(1, len(fin))
         upper = {k for l in fin[j:] for k in l}
         groups = {}
